@@ -9,7 +9,7 @@ Local Open Scope Z_scope.
 
 Inductive op :=
 | OPostRaw (off size : pt) (data : bytes) (roi : option (list span)) (ok : bool)
-| OGetRaw (g : geom) (roi : option (list span)) (result : res bytes)
+| OGetRaw (g : geom) (roi : option (list span)) (att : Z) (result : res bytes)
 | OPostBlocks (start : pt) (span : Z) (data : bytes) (ok : bool)
 | OGetBlocks (start : pt) (span : Z) (result : res bytes)
 | OStored (ordered : bool) (req : list pt) (result : res (list (pt * bytes)))   (* subvolblocks / specificblocks *)
@@ -19,8 +19,10 @@ Inductive c17case :=
 | KHist (c : cfg) (ops : list op)
 (* package level: Voxels.ReadBlock / WriteBlock on one block *)
 | KXfer (c : cfg) (g : geom) (stride : Z) (b : pt) (data blk : bytes) (rd wr : res bytes)
+(* package level: Voxels.ReadBlock with an attenuation (readScaledBlock) *)
+| KScaled (c : cfg) (g : geom) (stride : Z) (b : pt) (data blk : bytes) (att : Z) (rd : res bytes)
 (* the server process died while serving the history *)
-| KCrash (c : cfg).
+| KCrash (c : cfg) (cls : nat).
 
 Definition res_eqb {A} (eqb : A -> A -> bool) (a b : res A) : bool :=
   match a, b with Ok x, Ok y => eqb x y | Err, Err => true | Panic, Panic => true | _, _ => false end.
@@ -46,8 +48,8 @@ Fixpoint run_model (fill fixed : bool) (c : cfg) (s : state) (ops : list op) : b
       | Ok s' => ok && run_model fill fixed c s' t
       | _ => negb ok && run_model fill fixed c s t
       end
-    | OGetRaw g roi result =>
-      res_eqb bytes_eqb (get_raw fill c s g roi) result && run_model fill fixed c s t
+    | OGetRaw g roi att result =>
+      res_eqb bytes_eqb (get_raw_att fill c s g roi att) result && run_model fill fixed c s t
     | OPostBlocks start span data ok =>
       match post_blocks fixed c s start span data with
       | Ok s' => ok && run_model fill fixed c s' t
@@ -67,12 +69,19 @@ Fixpoint run_model (fill fixed : bool) (c : cfg) (s : state) (ops : list op) : b
 Definition model_ok (k : c17case) : bool :=
   match k with
   | KHist c ops =>
-    run_model true true c st0 ops || run_model false true c st0 ops
-    || run_model true false c st0 ops || run_model false false c st0 ops
+    let c1 := C (bsz c) (bpv c) (bgv c) (bgpat c) true in
+    let c0 := C (bsz c) (bpv c) (bgv c) (bgpat c) false in
+    if run_model true true c1 st0 ops then true else
+    if run_model true true c0 st0 ops then true else
+    if run_model false true c0 st0 ops then true else
+    if run_model true false c0 st0 ops then true else run_model false false c0 st0 ops
   | KXfer c g stride b data blk rd wr =>
     res_eqb bytes_eqb (read_block c g stride data blk b) rd
     && res_eqb bytes_eqb (write_block c g stride data blk b) wr
-  | KCrash _ => true
+  | KScaled c g stride b data blk att rd =>
+    if bpv c =? 1 then res_eqb bytes_eqb (read_block c g stride data (scaled_block att blk) b) rd
+    else res_eqb bytes_eqb Err rd
+  | KCrash _ _ => true
   end.
 
 (* ---- reference semantics ---- *)
@@ -114,9 +123,9 @@ Definition geom_voxels (g : geom) : list pt :=
   | Vol3d => flat_map (fun z => flat_map (fun y => map (fun x => (px o + x, py o + y, pz o + z)) (zseq (gw g)))
                                          (zseq (gh g))) (zseq (gd g))
   end.
-(* expected bytes of a list of voxels; [dflt p] is the byte of an unwritten voxel *)
-Definition ref_bytes (c : cfg) (ws : list wr) (dflt : pt -> N) (vs : list pt) : list (option N) :=
-  flat_map (fun p => map (fun ch => match ref_byte c ws p ch with Some v => Some v | None => Some (dflt p) end)
+(* expected bytes of a list of voxels; an unwritten voxel is the background voxel *)
+Definition ref_bytes (c : cfg) (ws : list wr) (vs : list pt) : list (option N) :=
+  flat_map (fun p => map (fun ch => match ref_byte c ws p ch with Some v => Some v | None => Some (nth (Z.to_nat ch) (bgpat c) 0%N) end)
                          (zseq (bpv c))) vs.
 Fixpoint opt_bytes_eqb (a : list (option N)) (b : bytes) : bool :=
   match a, b with
@@ -130,12 +139,16 @@ Definition block_voxel_list (c : cfg) (b : pt) : list pt :=
 
 Definition pt_le (a b : pt) : bool := (px a <=? px b) && (py a <=? py b) && (pz a <=? pz b).
 
-(* is the background defined for this instance?  (one-byte voxels, or Background = 0) *)
-Definition bg_defined (c : cfg) : bool := (bpv c =? 1) || N.eqb (bgv c) 0.
+(* the background byte of channel ch: the voxel whose every value is Background *)
+Definition bgp (c : cfg) (ch : Z) : N := nth (Z.to_nat ch) (bgpat c) 0%N.
+(* voxels wider than one byte with a non-zero Background: before C17-4 the code had no single
+   background for them; failures of such histories are reported under their own class *)
+Definition wide_bg (c : cfg) : bool := negb (bpv c =? 1) && negb (N.eqb (bgv c) 0).
 
 (* classes: 1 raw 3d read, 2 2d slice read, 3 blocks read, 4 subvolblocks/specificblocks,
-   5 extents do not cover a write, 6 ROI write/read, 7 POST blocks lost data, 8 refusal/panic of a
-   valid request, 9 unwritten voxels are not the background *)
+   5 extents do not cover a write, 6 ROI write/read, 8 refusal/panic of a valid request,
+   9 unwritten voxels are not the background (one-byte voxels), 10 single-block transfer,
+   11 background of voxels wider than one byte, 12 attenuated read *)
 Fixpoint run_spec (c : cfg) (ws : list wr) (ops : list op) : nat :=
   match ops with
   | [] => 0%nat
@@ -145,16 +158,21 @@ Fixpoint run_spec (c : cfg) (ws : list wr) (ops : list op) : nat :=
       if ok then run_spec c (W off size data roi :: ws) t
       else (* the driver only posts valid block-aligned volumes unless it says so by size 0 *)
         if (px size =? 0) then run_spec c ws t else 8%nat
-    | OGetRaw g roi result =>
+    | OGetRaw g roi att result =>
       match result with
       | Ok buf =>
         let vs := geom_voxels g in
         let inroi p := match roi with None => true | Some sp => in_spans (fdiv_pt p (bsz c)) sp end in
         let expect := flat_map (fun p => map (fun ch =>
-                         if inroi p then match ref_byte c ws p ch with Some v => Some v | None => Some (bg_byte c) end
-                         else Some (bg_byte c)) (zseq (bpv c))) vs in
+                         match ref_byte c ws p ch with
+                         | None => Some (bgp c ch)
+                         | Some v => if inroi p then Some v
+                                     else if att =? 0 then Some (bgp c ch)
+                                     else if bpv c =? 1 then Some (N.shiftr v (Z.to_N att)) else Some (bgp c ch)
+                         end) (zseq (bpv c))) vs in
         if opt_bytes_eqb expect buf then run_spec c ws t
-        else if negb (bg_defined c) then run_spec c ws t
+        else if negb (att =? 0) then 12%nat
+        else if wide_bg c then 11%nat
         else match roi with
              | Some _ => 6%nat
              | None =>
@@ -165,15 +183,15 @@ Fixpoint run_spec (c : cfg) (ws : list wr) (ops : list op) : nat :=
                    | p :: vt =>
                      let n := Z.to_nat (bpv c) in
                      (match ref_byte c ws p 0 with
-                      | None => negb (forallb (N.eqb (bg_byte c)) (firstn n buf))
+                      | None => negb (bytes_eqb (firstn n buf) (map (bgp c) (zseq (bpv c))))
                       | Some _ => false
                       end) || unwritten_bad vt (skipn n buf)
                    end in
                if unwritten_bad vs buf then 9%nat
                else match gshape g with Vol3d => 1%nat | _ => 2%nat end
              end
-      | Err => 8%nat
-      | Panic => 8%nat
+      | Err => if negb (att =? 0) then 12%nat else 8%nat
+      | Panic => if negb (att =? 0) then 12%nat else 8%nat
       end
     | OPostBlocks start span data ok =>
       if ok then
@@ -188,12 +206,9 @@ Fixpoint run_spec (c : cfg) (ws : list wr) (ops : list op) : nat :=
     | OGetBlocks start span result =>
       match result with
       | Ok buf =>
-        if negb (bg_defined c) then run_spec c ws t else
         let vs := flat_map (fun i => block_voxel_list c (px start + i, py start, pz start)) (zseq span) in
-        if opt_bytes_eqb (ref_bytes c ws (fun _ => bg_byte c) vs) buf then run_spec c ws t
-        else
-          (* a multi-byte instance after POST blocks is the recorded shape of class 7 *)
-          3%nat
+        if opt_bytes_eqb (ref_bytes c ws vs) buf then run_spec c ws t
+        else if wide_bg c then 11%nat else 3%nat
       | _ => 8%nat
       end
     | OStored ordered req result =>
@@ -202,7 +217,7 @@ Fixpoint run_spec (c : cfg) (ws : list wr) (ops : list op) : nat :=
         let expect := filter (written c ws) req in
         if Nat.eqb (length l) (length expect)
            && forallb (fun b => existsb (fun e => pt_eqb (fst e) b
-                                   && opt_bytes_eqb (ref_bytes c ws (fun _ => bg_byte c) (block_voxel_list c b)) (snd e)) l) expect
+                                   && opt_bytes_eqb (ref_bytes c ws (block_voxel_list c b)) (snd e)) l) expect
         then run_spec c ws t else 4%nat
       | _ => 8%nat
       end
@@ -255,7 +270,14 @@ Definition spec_class (k : c17case) : nat :=
       then 0%nat else 10%nat
     | _, _ => 8%nat
     end
-  | KCrash _ => 8%nat
+  | KScaled c g stride b data blk att rd =>
+    if bpv c =? 1 then
+      match rd with
+      | Ok d' => if bytes_eqb d' (xfer_expect false c g stride b data (scaled_block att blk)) then 0%nat else 12%nat
+      | _ => 12%nat
+      end
+    else if is_panic rd then 12%nat else 0%nat
+  | KCrash _ k => k
   end.
 
 Fixpoint classify_from (i : nat) (l : list c17case) : list (nat * nat) :=
